@@ -148,6 +148,22 @@ def gen_c17(r, tier):
                 ops[-1]['stdin'] = True
         else:
             ops.extend(gen_fault(r, spec, inp))
+    k = 0
+    while k < len(ops):
+        op = ops[k]
+        if op['op'] == 'cli' and not op.get('fault') and op.get('out') \
+                and op['out'] != '-' and op['cmd'] in ('discover', 'detect') \
+                and r.chance(0.15):
+            # the same invocation, a moment earlier, was cut short by an
+            # I/O error while writing its output (disk full, quota); the
+            # user makes room and runs it again
+            bad = copy.deepcopy(op)
+            bad['io_fault'] = {'kind': r.pick(['enospc', 'eio', 'short_write']),
+                               'site': r.randint(0, 1),
+                               'short': r.randint(0, 20)}
+            ops.insert(k, bad)
+            k += 1
+        k += 1
     for op in ops:
         if op['op'] == 'cli' and not op.get('fault'):
             if op['cmd'] == 'discover' and r.chance(0.15):
@@ -391,6 +407,29 @@ def op_cli(ctx, op):
         with io.open(W.path('cwd', op['input']), encoding='utf-8') as f:
             stdin_text = f.read()
     before = fsaudit.snapshot([cwd])
+    if op.get('io_fault'):
+        f = op['io_fault']
+        errno_ = {'enospc': 28, 'eio': 5, 'short_write': 28}[f['kind']]
+        seam = fsaudit.FsSeam([W.root])
+        with seam:
+            seam.begin_op({'kind': f['kind'], 'site': f['site'],
+                           'errno': errno_,
+                           'short': f['short'] if f['kind'] == 'short_write'
+                           else None}, None)
+            status, exc, ret, out, err = run_cli(ctx, real_argv, stdin_text)
+            fired = list(seam.fired)
+            seam.begin_op(None, None)
+        for x in fired:
+            ctx.stats['faults']['io_' + x[0]] += 1
+        ctx.events.append({'i': op['i'], 'op': 'cli-io-fault',
+                           'argv': real_argv, 'fired': len(fired),
+                           'status': 1 if status else 0})
+        ctx.shape.append('%sF%d' % (op['cmd'][:3], len(fired)))
+        if fired:
+            ctx.nontrivial = True
+        # nothing is promised about an invocation cut short by an I/O
+        # error; the next one is checked in full
+        return
     status, exc, ret, out, err = run_cli(ctx, real_argv, stdin_text)
     if canon(argv) != argv:
         ctx.stats['probes']['alternative_flag_spellings'] += 1
